@@ -92,6 +92,90 @@ namespace bloch::runtime::verif {
         }
     }
 
+    // Collector schedule as an input. Modes (also via env BLOCH_VERIF_GC for the CLI binary):
+    //   "real"        : untouched behaviour (50 ms timer, allocation pressure, destroy requests)
+    //   "none"        : timer thread not started, every collection request suppressed
+    //   "all"         : timer off, a collection is forced at every statement boundary
+    //   "at:3,7,9"    : timer off, requests suppressed, forced at the listed statement numbers
+    //   "pressure"    : timer off, only the program-driven requests (allocation pressure, destroy)
+    //   "timer:<ms>"  : real behaviour with the timer period shortened to <ms>
+    struct GcSchedule {
+        bool loaded = false;
+        bool timerOff = false;
+        bool suppressRequests = false;
+        bool forceAll = false;
+        std::vector<long> at;
+        int timerMs = 50;
+        long counter = 0;
+        bool countStatements = false;
+        void parse(const std::string& m) {
+            timerOff = suppressRequests = forceAll = false;
+            at.clear();
+            timerMs = 50;
+            if (m == "none") {
+                timerOff = suppressRequests = true;
+            } else if (m == "all") {
+                timerOff = forceAll = true;
+            } else if (m.rfind("at:", 0) == 0) {
+                timerOff = suppressRequests = true;
+                size_t i = 3;
+                while (i < m.size()) {
+                    size_t j = m.find(',', i);
+                    if (j == std::string::npos)
+                        j = m.size();
+                    if (j > i)
+                        at.push_back(std::atol(m.substr(i, j - i).c_str()));
+                    i = j + 1;
+                }
+            } else if (m == "pressure") {
+                timerOff = true;
+            } else if (m.rfind("timer:", 0) == 0) {
+                timerMs = std::atoi(m.substr(6).c_str());
+                if (timerMs <= 0)
+                    timerMs = 1;
+            }
+        }
+        void load() {
+            loaded = true;
+            const char* f = std::getenv("BLOCH_VERIF_GC");
+            if (f && *f)
+                parse(f);
+        }
+    };
+    inline GcSchedule& gc() {
+        static GcSchedule g;
+        if (!g.loaded)
+            g.load();
+        return g;
+    }
+    // Called at every statement boundary (top of exec). Returns true if a collection is forced.
+    inline bool onStatement() {
+        auto& g = gc();
+        long k = ++g.counter;
+        if (g.forceAll)
+            return true;
+        for (long a : g.at)
+            if (a == k)
+                return true;
+        return false;
+    }
+
+    inline std::string jsonEscape(const std::string& s) {
+        std::string o;
+        for (unsigned char c : s) {
+            if (c == '"' || c == '\\') {
+                o.push_back('\\');
+                o.push_back((char)c);
+            } else if (c < 0x20) {
+                char buf[8];
+                std::snprintf(buf, sizeof buf, "\\u%04x", c);
+                o += buf;
+            } else
+                o.push_back((char)c);
+        }
+        return o;
+    }
+
 }  // namespace bloch::runtime::verif
 
 #endif  // BLOCH_VERIF
